@@ -492,6 +492,13 @@ impl Prop for C18 {
             let s = run % 36;
             let pass = run / 36;
             ((s / 6) as usize + 1, (s % 6) as usize + 1, pass % 2 == 1, if pass < 4 { 0 } else { 1 }, true)
+        } else if rng.chance(0.0005) {
+            // far beyond the 6 x 6 the property lists by name (it says "for every m and n"): shapes up to
+            // 200 x 200, where a rewrite may switch to tiles, blocks or another layout. Exact kinds only
+            // (affine-dyadic stays exact: 41 significant bits at n = 200; table).
+            let big = |rng: &mut Rng| if rng.chance(0.3) { rng.urange(1, 8) } else { rng.urange(20, 200) };
+            let (m, n) = (big(rng), big(rng));
+            (m, n, rng.chance(0.4), rng.below(2), false)
         } else {
             (rng.urange(1, max_dim), rng.urange(1, max_dim), rng.chance(0.4), rng.below(3), false)
         };
@@ -550,6 +557,9 @@ impl Prop for C18 {
         stats.add("callback_invocations", out.hist.calls as u64);
         stats.log.u64(out.hist.points_hash.finish());
         stats.log.u64(out.hist.calls as u64);
+        if m * n >= 4096 {
+            stats.count("probe.large_shape_4096_entries_or_more");
+        }
         stats.count(if m < n { "probe.m_lt_n" } else if m > n { "probe.m_gt_n" } else { "probe.m_eq_n" });
         stats.count(if case.cmplx { "probe.complex" } else { "probe.real" });
         stats.count(match &case.kind {
